@@ -24,7 +24,7 @@ from ..sym.arr import SymArr, I, dim_term
 class ColCounts(Family):
     name = "RaggedArray.col_counts"
     qualname = "npstructures.raggedarray:RaggedArray.col_counts"
-    serves = ["C09"]
+    serves = ["C09", "C19"]
     assumed = ["numpy.bincount contract (counting function cnt(k, i) with step axioms)", "numpy.cumsum(out=) = prefix sums"]
 
     def run(self, ctx, kind):
@@ -104,7 +104,7 @@ class ColCounts(Family):
 class ColumnSumDispatch(Family):
     name = "RaggedArray.sum[axis=0]"
     qualname = "npstructures.raggedarray:RaggedArray.sum"
-    serves = ["C09"]
+    serves = ["C09", "C19"]
     assumed = ["numpy.add.at / weighted bincount accumulate the weights per index (values: bounded stand-in)",
                "numpy.issubdtype table for the element dtype (evaluated by numpy itself)"]
 
@@ -173,7 +173,7 @@ class ColumnSumDispatch(Family):
 class GetColumnValues(Family):
     name = "IndexableArray.get_column_values"
     qualname = "npstructures.raggedarray.indexablearray:IndexableArray.get_column_values"
-    serves = ["C09"]
+    serves = ["C09", "C19"]
     assumed = ["callee contract ra[mask, j] (C02)"]
 
     def run(self, ctx, kind):
